@@ -27,6 +27,23 @@ def send_sites(P):
     return out
 
 
+def emitters(P):
+    """Keys of the functions that may write to the server channel: the single sender and everything that may reach it
+    through the call graph (direct calls and function-pointer slots)."""
+    snd = sender(P)
+    em = {snd.key}
+    changed = True
+    while changed:
+        changed = False
+        for f in P.fns.values():
+            if f.key in em:
+                continue
+            if any(t.key in em for s in f.calls() for t in P.callees(s, True)):
+                em.add(f.key)
+                changed = True
+    return em
+
+
 def first_word(fmt):
     return re.split(r'\s', fmt)[0] if fmt is not None else None
 
